@@ -89,13 +89,29 @@ func harness_C09_pipeline() {
 			tgt.fail[e] = true
 		}
 	}
+	// nested: the destination hands the message to another pipeline (reroute),
+	// which delivers to the same target; both pipelines share the message metadata
+	var outTarget module.DeliveryTarget = tgt
+	if nondetBool("nested") {
+		outTarget = &MsgPipeline{
+			msgpipelineCfg: msgpipelineCfg{
+				perSource: map[string]sourceBlock{},
+				defaultSource: sourceBlock{
+					perRcpt:     map[string]*rcptBlock{},
+					defaultRcpt: &rcptBlock{targets: []module.DeliveryTarget{tgt}},
+				},
+			},
+			Log: log.Logger{},
+		}
+		verifCover("C09.pipeline-nested")
+	}
 	d := MsgPipeline{
 		msgpipelineCfg: msgpipelineCfg{
 			globalModifiers: modify.Group{Modifiers: []module.Modifier{testutils.Modifier{InstName: "rw", RcptTo: rw}}},
 			perSource:       map[string]sourceBlock{},
 			defaultSource: sourceBlock{
 				perRcpt:     map[string]*rcptBlock{},
-				defaultRcpt: &rcptBlock{targets: []module.DeliveryTarget{tgt}},
+				defaultRcpt: &rcptBlock{targets: []module.DeliveryTarget{outTarget}},
 			},
 		},
 		Log: log.Logger{},
